@@ -15,9 +15,14 @@ Open Scope N_scope.
 
 Inductive wrapk := KLink | KIns | KSdt | KSmart | KField | KMoveTo | KSpan.
 
+(* kinds of break inside a paragraph: all of them are boundaries *)
+Inductive brk := BrLine | BrPage | BrColumn | BrWrap | BrCr.
+
 Inductive inl :=
 | IRun (t : str)                       (* visible run text *)
-| ITab | IBreak                        (* tab stop / line break inside a paragraph *)
+| ITab                                 (* tab stop: a boundary *)
+| IBreak (k : brk)                     (* line / page / column / text-wrapping break, carriage return: a boundary *)
+| IMark                                (* layout marker (last rendered / soft page break): NOT a boundary *)
 | IDel (t : str)                       (* tracked deletion (excluded) *)
 | IMovedFrom (t : str)                 (* source position of a tracked move (excluded) *)
 | IComment (t : str)                   (* comment / annotation anchored here (excluded) *)
@@ -39,7 +44,8 @@ Section InlInd.
   Variable P : inl -> Prop.
   Hypothesis Hrun : forall t, P (IRun t).
   Hypothesis Htab : P ITab.
-  Hypothesis Hbrk : P IBreak.
+  Hypothesis Hbrk : forall k, P (IBreak k).
+  Hypothesis Hmark : P IMark.
   Hypothesis Hdel : forall t, P (IDel t).
   Hypothesis Hmov : forall t, P (IMovedFrom t).
   Hypothesis Hcom : forall t, P (IComment t).
@@ -47,7 +53,7 @@ Section InlInd.
   Hypothesis Hbox : forall v ps, Forall (Forall P) ps -> P (IBox v ps).
   Fixpoint inl_ind' (i : inl) : P i :=
     match i with
-    | IRun t => Hrun t | ITab => Htab | IBreak => Hbrk | IDel t => Hdel t
+    | IRun t => Hrun t | ITab => Htab | IBreak k => Hbrk k | IMark => Hmark | IDel t => Hdel t
     | IMovedFrom t => Hmov t | IComment t => Hcom t
     | IWrap k l => Hwrap k l ((fix go (l : list inl) : Forall P l :=
                                  match l with [] => Forall_nil P | x :: r => Forall_cons x (inl_ind' x) (go r) end) l)
@@ -88,8 +94,8 @@ Fixpoint inl_syms (i : inl) : list sym :=
   match i with
   | IRun t => [Leaf t]
   | ITab => [Sep 9]
-  | IBreak => [Sep 10]
-  | IDel _ | IMovedFrom _ | IComment _ => []
+  | IBreak _ => [Sep 10]
+  | IMark | IDel _ | IMovedFrom _ | IComment _ => []
   | IWrap _ l => flat_map inl_syms l
   | IBox _ ps => Sep 10 :: flat_map (fun p => flat_map inl_syms p ++ [Sep 10]) ps
   end.
@@ -110,7 +116,7 @@ Definition visible (d : doc) : list str := leaves (doc_syms d).
 
 Fixpoint inl_excl (i : inl) : list str :=
   match i with
-  | IRun _ | ITab | IBreak => []
+  | IRun _ | ITab | IBreak _ | IMark => []
   | IDel t | IMovedFrom t | IComment t => [t]
   | IWrap _ l => flat_map inl_excl l
   | IBox _ ps => flat_map (flat_map inl_excl) ps
@@ -157,7 +163,7 @@ Section Wf.
   Fixpoint inl_wf (i : inl) : bool :=
     match i with
     | IRun t => leaf_ok true t
-    | ITab | IBreak => true
+    | ITab | IBreak _ | IMark => true
     | IDel t | IMovedFrom t | IComment t => leaf_ok false t
     | IWrap _ l => forallb inl_wf l
     | IBox _ ps => forallb (forallb inl_wf) ps
